@@ -345,7 +345,7 @@ func runDirectBatch(c *core.Ctx, seed int64, nRules, nGeneric, perRule int) {
 				st.count("doif.leaf."+l.op+"."+evalLeaf(l, ev, nowNs).String(), 1)
 			}
 			if ga != gb {
-				violate(c, "doif nondeterministic: same rule and event, different decision after reordering values/operands/earlier events",
+				violate(c, nondetSignature("doif nondeterministic: same rule and event, different decision after reordering values/operands/earlier events", r, ev),
 					fmt.Sprintf("rule %s / %s on event %s: first %d, second %d", built[ri].cfgA, built[ri].cfgB, core.Trunc(b.evJSON[ei], 300), ga, gb),
 					map[string]any{"rule": built[ri].cfgA, "rule_reordered": built[ri].cfgB, "event": b.evJSON[ei], "first": ga, "second": gb, "documented": want.String()})
 			}
